@@ -291,6 +291,21 @@ def docset(fmt, declared, base_url, nlines=5, doc=DOC, archive=None):
 
     name = "docs.json"
     arch = f"{name}.{fmt}" if fmt else None
+    if os.environ.get("VERIF_C14_DIRECT_DOCSETS") != "1":
+        # the document set is what the real TrackSpecificationReader makes of the corpus description in the track file
+        from esrally.track import loader
+
+        d = {"source-file": arch or name, "document-count": nlines, "target-index": "idx"}
+        if base_url:
+            d["base-url"] = "http://example.org/corpora"
+        if declared:
+            d["uncompressed-bytes"] = len(doc)
+            if archive is not None:
+                d["compressed-bytes"] = len(archive)
+        spec = {"description": "verif", "indices": [{"name": "idx"}], "corpora": [{"name": "c", "documents": [d]}],
+                "schedule": [{"operation": {"operation-type": "bulk", "bulk-size": 100}}]}
+        trk = loader.TrackSpecificationReader()("verif", spec, "/nonexistent-mapping-dir")
+        return trk.corpora[0].documents[0]
     return track.Documents(
         track.Documents.SOURCE_FORMAT_BULK,
         document_file=name,
